@@ -12,7 +12,10 @@
    Both emit every enumerated case through the CORPUS channel.
 2. harness/cmd/vcodec refines the cases to real bytes (persistence.FormatCommand + AOFWriter) and runs
    them on ReadFrame/ParseCommand and on engine.Open; the state after Open must be the state of the
-   surviving subsequence the spec computed.
+   surviving subsequence the spec computed, Open must not panic / hang / refuse a file that begins with
+   the magic, must not allocate beyond what the in-cap length fields of the file explain (cap escaped:
+   alloc_unbounded) nor far beyond what the file could justify (alloc_amplified), and a second start
+   must see the same commands.
 3. a virtual _test.go in pkg/engine checks float32SliceToHexString / parseVectorFromString bit for bit.
 """
 import json, os, random, re, shutil, subprocess, sys, time
